@@ -91,7 +91,9 @@ template <class T> static void lnorms(pbt::Ctx& c) {
 	if (!fp::same_value(g = glm::lMaxNorm(A, B), m)) c.failk(key("lMaxNorm", 3, "two-argument"), "lMaxNorm(%s,%s)=%.17g, expected %.17g", vstr(a, 3).c_str(), vstr(b, 3).c_str(), (double)g, (double)m);
 	R s = powl(rabs(ra[0]), D) + powl(rabs(ra[1]), D) + powl(rabs(ra[2]), D);
 	w = powl(s, 1.0L / D);
-	if (!within(c, "lxNorm(v,D) err/tol", rabs((R)(g = glm::lxNorm(A, D)) - w), 8 * u * (2 + (4 + rabs(logl(s))) / D) * w + TINY<T>())) c.failk(key("lxNorm", 3, "one-argument"), "lxNorm(%s,%u)=%.17g, expected %.17Lg", vstr(a, 3).c_str(), D, (double)g, w);
+	// the D-th powers of a tiny vector may underflow in T as well (seen once in 3e9 cases: an axis vector of magnitude 2^-19.4 at Depth 7)
+	if (!(s > (R)std::numeric_limits<T>::min() / u)) c.cls("lxNorm(v): powers of the components underflow (not checked)");
+	else if (!within(c, "lxNorm(v,D) err/tol", rabs((R)(g = glm::lxNorm(A, D)) - w), 8 * u * (2 + (4 + rabs(logl(s))) / D) * w + TINY<T>())) c.failk(key("lxNorm", 3, "one-argument"), "lxNorm(%s,%u)=%.17g, expected %.17Lg", vstr(a, 3).c_str(), D, (double)g, w);
 	if (rd[0] != 0 || rd[1] != 0 || rd[2] != 0) {
 		s = powl(rabs(rd[0]), D) + powl(rabs(rd[1]), D) + powl(rabs(rd[2]), D);
 		w = powl(s, 1.0L / D);
@@ -148,6 +150,9 @@ template <class T> static void products(pbt::Ctx& c) {
 		R nx = norm(xx, 3);
 		R tol = nx > 0 ? 8 * u * (4 * norm(ss, 3) / nx + 4.5L) : 1;
 		if (tol > 1e-2L) { c.cls("triangle degenerate or nearly (not checked)"); return; }
+		// a tiny triangle whose cross product has a squared norm that underflows in T is outside the quantifier (the coverage-guided stage
+		// steers uniform(-2,2) to coordinates like 1e-9 .. 1e-13): counted, not checked
+		if (!(nx * nx > (R)std::numeric_limits<T>::min() / u)) { c.cls("triangle so small that |cross|^2 underflows (not checked)"); return; }
 		c.cls("triangle non-degenerate");
 		T g[4]; X<T, 3>(glm::triangleNormal(A, B, C), g);
 		R rg[4], dv[4], nref[4]; lift(g, rg);
@@ -162,6 +167,27 @@ REG2(products, "cross2_mixedProduct_triangleNormal", 1500000, 75000000,
      "a pair of vec2 (2^-20..2^20) and three vec3 (2^-10..2^10; third independent / in the plane of the first two (det ~ 0) / their rounded cross product), every pair relation; 2D cross = x1*y2-x2*y1 and antisymmetric, "
      "mixedProduct = determinant and antisymmetric, triangleNormal = unit, orthogonal to both edges, oriented as cross(p1-p2,p1-p3); non-trivial = the three vec3 have pairwise distinct non-zero |components|");
 
+// Exact power-of-two rescaling of a generated vector (|k| <= 24 float / 300 double keeps every squared norm and product far from
+// under/overflow): scale-invariant / scale-covariant helpers must treat short and long vectors like moderate ones.
+template <class T> static bool scale_safe(const R* v, int L) {  // every non-zero component within 2^-50..2^50 (float) / 2^-450..2^450 (double)
+	const R lo = ldexpl(1.0L, sizeof(T) == 4 ? -50 : -450), hi = ldexpl(1.0L, sizeof(T) == 4 ? 50 : 450);
+	for (int i = 0; i < L; ++i) if (v[i] != 0 && !(rabs(v[i]) >= lo && rabs(v[i]) <= hi)) return false;
+	return true;
+}
+template <class T> static int rescale(pbt::Ctx& c, T* v, int L, const char* what) {
+	(void)what;
+	if (c.draw(3) != 0) { c.cls("operand scale: 1"); return 0; }
+	const int kmax = sizeof(T) == 4 ? 24 : 300;
+	int k = (int)c.range(-kmax, kmax);
+	T s = (T)std::ldexp(1.0, k);
+	R w[4] = {0, 0, 0, 0};
+	for (int i = 0; i < L; ++i) w[i] = (R)v[i] * (R)s;
+	if (!scale_safe<T>(w, L)) { c.cls("operand scale: 1 (a generated component too small or large to rescale)"); return 0; }
+	for (int i = 0; i < L; ++i) v[i] *= s;
+	c.cls(k < -12 ? "operand scale: below 2^-12" : k > 12 ? "operand scale: above 2^12" : "operand scale: 2^-12..2^12");
+	return k;
+}
+
 // =============================================================================================
 // proj(x, n) = dot(x,n)/dot(n,n) * n ("a normal that doesn't need to be of unit length"), perp(x, n) = x - proj(x, n)
 //   coefficient error <= L u S / nn + |c| (L+1) u, one more rounding for the product: |err_i| <= |n_i| (L u S/nn + |c| (L+2) u)
@@ -169,6 +195,7 @@ template <class T, int L> static void projperp_L(pbt::Ctx& c) {
 	T x[4], n[4];
 	int rel = gen_pair<T>(c, L, n, x, 8);
 	c.cls(REL_NAME[rel]);
+	rescale(c, n, L, "Normal"); rescale(c, x, L, "x");
 	if (c.verbose) c.logf("L=%d x=%s Normal=%s (%s)", L, vstr(x, L).c_str(), vstr(n, L).c_str(), REL_KEY[rel]);
 	R rx[4], rn[4]; lift(x, rx); lift(n, rn);
 	const R u = U<T>(), d = dot(rx, rn, L), S = adot(rx, rn, L), nn = norm2(rn, L), co = d / nn;
@@ -198,7 +225,7 @@ template <class T, int L> static void projperp_L(pbt::Ctx& c) {
 }
 template <class T> static void projperp(pbt::Ctx& c) { DISPATCH_L(projperp_L) }
 REG2(projperp, "proj_perp", 1500000, 75000000,
-     "x and a non-zero, non-unit Normal in every pair relation, L=1..4 + scalar overloads, magnitudes 2^-8..2^8; proj against (x.n/n.n) n and parallel to n, perp against x - proj, proj + perp = x, perp orthogonal to n "
+     "x and a non-zero, non-unit Normal in every pair relation, L=1..4 + scalar overloads, magnitudes 2^-8..2^8, each of x and Normal rescaled by 2^k (|k| <= 24 float / 300 double) in one case of three; proj against (x.n/n.n) n and parallel to n, perp against x - proj, proj + perp = x, perp orthogonal to n "
      "within the cancellation bound; non-trivial = x.n != 0, |n|^2 differs from 1 by more than 1%, n with pairwise distinct non-zero |components|, x with at least two non-zero components");
 
 // =============================================================================================
@@ -212,6 +239,7 @@ template <class T> static void orthop(pbt::Ctx& c) {
 		int rel = gen_pair<T>(c, 3, y, x, 6);
 		make_unit(y, 3);
 		c.cls(REL_NAME[rel]);
+		rescale(c, x, 3, "x");
 		if (c.verbose) c.logf("vec form: x=%s y=%s (%s)", vstr(x, 3).c_str(), vstr(y, 3).c_str(), REL_KEY[rel]);
 		R rx[4], ry[4], w[4], ew[4]; lift(x, rx); lift(y, ry);
 		R d = dot(ry, rx, 3), S = adot(ry, rx, 3), delta = norm2(ry, 3) - 1;
@@ -255,6 +283,7 @@ template <class T> static void orthop(pbt::Ctx& c) {
 		m[2][3] = 0;
 	} else { mname = "mat:independent columns"; gen_pair<T>(c, 3, m[0], m[1], 6); gen_vec<T>(c, 3, m[2], 6); }
 	c.cls(mname);
+	if (c.draw(3) == 0) { rescale(c, m[0], 3, "column0"); rescale(c, m[1], 3, "column1"); rescale(c, m[2], 3, "column2"); }
 	if (c.verbose) c.logf("matrix columns %s %s %s (%s)", vstr(m[0], 3).c_str(), vstr(m[1], 3).c_str(), vstr(m[2], 3).c_str(), mname);
 	R cr[3][4], q[3][4], w1[4], w2[4];
 	for (int k = 0; k < 3; ++k) lift(m[k], cr[k]);
@@ -403,6 +432,20 @@ template <class T, int L> static void closest_L(pbt::Ctx& c) {
 		for (int i = 0; i < L; ++i) p[i] = (T)(ra[i] + t * ab[i]) + o[i];
 	}
 	c.cls(pname);
+	// the whole configuration at another scale (exact power-of-two factor; squared norms stay far from under/overflow): the function
+	// is scale-invariant, so segments far shorter or longer than 1 behave like the unscaled ones
+	if (c.draw(3) == 0) {
+		const int kmax = sizeof(T) == 4 ? 32 : 400;
+		int k = (int)c.range(-kmax, kmax);
+		T s = (T)std::ldexp(1.0, k);
+		R sa[4], sb[4], sp[4], sab[4], sap[4];
+		for (int i = 0; i < 4; ++i) { sa[i] = (R)a[i] * (R)s; sb[i] = (R)b[i] * (R)s; sp[i] = (R)p[i] * (R)s; sab[i] = sb[i] - sa[i]; sap[i] = sp[i] - sa[i]; }
+		if (scale_safe<T>(sa, L) && scale_safe<T>(sb, L) && scale_safe<T>(sp, L) && scale_safe<T>(sab, L) && scale_safe<T>(sap, L)) {
+			for (int i = 0; i < L; ++i) { a[i] *= s; b[i] *= s; p[i] *= s; }
+			lift(a, ra); lift(b, rb); sub(rb, ra, ab, L); len = norm(ab, L);
+			c.cls(k < -20 ? "scale: below 2^-20" : k > 20 ? "scale: above 2^20" : "scale: 2^-20..2^20");
+		} else c.cls("scale: 1 (a generated component or difference too small or large to rescale)");
+	} else c.cls("scale: 1");
 	if (c.verbose) c.logf("L=%d point=%s a=%s b=%s (%s)", L, vstr(p, L).c_str(), vstr(a, L).c_str(), vstr(b, L).c_str(), pname);
 	R rp[4], v[4], dir[4]; lift(p, rp); sub(rp, ra, v, L);
 	for (int i = 0; i < 4; ++i) dir[i] = ab[i] / len;
@@ -441,6 +484,6 @@ template <class T, int L> static void closest_L(pbt::Ctx& c) {
 }
 template <class T> static void closestp(pbt::Ctx& c) { if (c.coin()) closest_L<T, 2>(c); else closest_L<T, 3>(c); }
 REG2(closestp, "closestPointOnLine", 1500000, 75000000,
-     "segments a != b (vec2 and vec3, magnitudes 2^-8..2^8, a sometimes the origin), point anywhere / at an end / offset (along the normal or randomly) from a point of the line before a, inside, beyond b; "
+     "segments a != b (vec2 and vec3, magnitudes 2^-8..2^8, a sometimes the origin; one case in three with the whole configuration scaled by 2^k, |k| <= 32 float / 400 double), point anywhere / at an end / offset (along the normal or randomly) from a point of the line before a, inside, beyond b; "
      "result against a + clamp(t,0,1)(b-a) in long double (exactly the end point when clamped by margin), lies on the segment, no sampled segment point (ends, foot, neighbours, random) is closer; "
      "non-trivial = the region (before a / interior / beyond b) is decided beyond rounding");
